@@ -20,6 +20,7 @@ breaks that equality.
 
 usage: fpkernels.py <repo> <out.lean>
 """
+import os
 import re
 import sys
 from pathlib import Path
@@ -202,6 +203,8 @@ class P:
         k, v, suf = self.peek()
         if k == "num":
             self.next(); return ("lit", v, suf)
+        if k == "str":
+            self.next(); return ("strlit", v)
         if self.opt("("):
             items, trailing = [], False
             while not self.at(")"):
@@ -377,6 +380,8 @@ class P:
                 ty = None
                 if self.opt(":"):
                     ty = self.ty()
+                if ty is not None and self.opt(";"):
+                    stmts.append(("declare", p, ty)); continue      # `let x: T;` — assigned on every path later
                 self.eat("=")
                 e = self.expr(); self.eat(";")
                 stmts.append(("let", p, ty, e)); continue
@@ -414,7 +419,14 @@ def parse_fn(src, name, occ=0, key=None):
     src = re.sub(r"'(?:[^'\\\n]|\\.)'", "0", src)                  # char literals (keeps lifetimes)
     src = re.sub(r"<'[a-z_]+>", "", src)                             # lifetime parameters / arguments
     src = re.sub(r"'[a-z_]+\b", "", src)
-    src = re.sub(r'"(?:[^"\\]|\\.)*"', '0', src, flags=re.S)
+    strs = []
+
+    def _str(mm):
+        t = re.sub(r"\\\n\s*", "", mm.group(0)[1:-1])       # line continuation
+        t = t.replace('\\"', '"').replace("\\n", "\n").replace("\\\\", "\\")
+        strs.append(t)
+        return f" __STR{len(strs) - 1}__ "
+    src = re.sub(r'"(?:[^"\\]|\\.)*"', _str, src, flags=re.S)
     m = None
     seen = 0
     for cand in re.finditer(r"fn\s+" + re.escape(name) + r"\s*\(", src):
@@ -433,6 +445,7 @@ def parse_fn(src, name, occ=0, key=None):
         if depth == 0:
             break
     toks = tokenize(src[m.start(): j + 1])
+    toks = [("str", strs[int(t[1][5:-2])], None) if t[0] == "id" and re.fullmatch(r"__STR\d+__", t[1]) else t for t in toks]
     p = P(toks)
     p.eat("fn"); p.next(); p.eat("(")
     params = []
@@ -451,7 +464,7 @@ def parse_fn(src, name, occ=0, key=None):
         pn = p.next()[1]; p.eat(":")
         is_mut_ref = p.at("&") and p.peek(1)[1] == "mut"
         params.append((pn, p.ty()))
-        if is_mut_ref:
+        if is_mut_ref and params[-1][1] != "Formatter":     # the formatter is only read here; what is written is the function's value
             MUT_PARAMS.setdefault(key or name, []).append(pn)
         p.opt(",")
     p.eat(")")
@@ -511,7 +524,7 @@ def macro_invocation(src, name, k, skip):
 def macro_bind(pattern, args):
     """bindings of the `$x:ident` metavariables of a flat pattern against the invocation's tokens"""
     pt = re.findall(r"\$\w+:\w+|\w+|[^\s\w]", pattern)
-    at = re.findall(r"\w+|[^\s\w]", args)
+    at = re.findall(r'"[^"]*"|\w+|[^\s\w]', args)
     b, j = {}, 0
     for t in pt:
         if t.startswith("$"):
@@ -533,8 +546,9 @@ def macro_expand(src, name, arm, inv, extra):
     body = body.replace("$(", "").replace(")*", "")
     for k in sorted(b, key=len, reverse=True):
         body = re.sub(re.escape(k) + r"\b", b[k], body)
-    if "$" in body:
-        raise SyntaxError("unbound metavariable in macro body: " + body[body.index("$"): body.index("$") + 20])
+    nostr = re.sub(r'"(?:[^"\\]|\\.)*"', '""', body, flags=re.S)
+    if "$" in nostr:
+        raise SyntaxError("unbound metavariable in macro body: " + nostr[nostr.index("$"): nostr.index("$") + 20])
     return body
 
 
@@ -576,7 +590,9 @@ def lean_ty(t):
         return "Model.Dec"
     if t == "Ordering":
         return "Ordering"
-    if t in ("str", "AsciiDecLit") or t == ("slice", "u8"):
+    if t == "Formatter":
+        return "Std.FmtSpec"
+    if t in ("str", "AsciiDecLit", "String", "Written") or t == ("slice", "u8"):
         return "(List Nat)"         # a string / byte slice / the parser's cursor (a struct around its remaining slice): its bytes
     if isinstance(t, tuple) and t[0] == "Result":
         if len(t) > 2 and t[2] == "ParseDecimalError":
@@ -656,6 +672,12 @@ class Emit:
         k = e[0]
         if k == "lit":
             return e[2] or hint or "i32"
+        if k == "strlit":
+            return "str"
+        if k == "macro" and e[1] == "format":
+            return "String"
+        if k == "macro" and e[1] == "write":
+            return "Written"
         if k == "paren":
             return self.type_of(e[1], hint)
         if k == "path":
@@ -704,6 +726,12 @@ class Emit:
         if k == "method":
             rt = self.type_of(e[1], hint)
             m = e[2]
+            if m == "to_string":
+                return "String"
+            if rt == "Formatter" and m == "precision":
+                return ("Option", "usize")
+            if rt == "Formatter" and m == "pad_integral":
+                return "Written"
             if rt == "AsciiDecLit" and m in LIT_METHODS:
                 r = self.sigs[LIT_METHODS[m]][1] if LIT_METHODS[m] in self.sigs else EXTERNAL[LIT_METHODS[m]][1]
                 mp = MUT_PARAMS.get(LIT_METHODS[m], [])
@@ -824,10 +852,87 @@ class Emit:
             return f"IntTy.{t}.plain prof ({inner})"
         return f"Rt.plainU {bits(t)} prof ({inner})"
 
+    @staticmethod
+    def bytes_lit(text):
+        b = list(text.encode())
+        return "([" + ", ".join(map(str, b)) + "] : List Nat)"
+
+    def format_macro(self, toks):
+        """`format!(fmt, args…, name = value…)` / the part of `write!` after the formatter: the bytes produced.  Placeholders handled:
+        `{}` (Display of an integer or of a string) and `{:0name$}` (an integer, zero-padded to the named width, sign-aware)."""
+        p = P(toks + [("eof", None, None)])
+        f = p.expr()
+        if f[0] == "macro" and f[1] == "concat":
+            q = P(f[2] + [("eof", None, None)])
+            parts = []
+            while q.peek()[0] != "eof":
+                a = q.expr(); q.opt(",")
+                if a[0] != "strlit":
+                    raise Unsupported("concat! of a non-literal")
+                parts.append(a[1])
+            f = ("strlit", "".join(parts))
+        if f[0] != "strlit":
+            raise Unsupported("format string is not a literal")
+        pos, named = [], {}
+        while p.opt(","):
+            if p.peek()[0] == "eof":
+                break
+            if p.peek()[0] == "id" and p.peek(1)[1] == "=" :
+                nm = p.next()[1]; p.next()
+                named[nm] = p.expr()
+            else:
+                pos.append(p.expr())
+        ls, parts, i = [], [], 0
+        for lit_, ph in re.findall(r"([^{}]*)(\{[^{}]*\})?", f[1]):
+            if lit_:
+                parts.append(self.bytes_lit(lit_))
+            if not ph:
+                continue
+            if i >= len(pos):
+                raise Unsupported("format!: not enough arguments")
+            a = pos[i]; i += 1
+            if ph == "{}":
+                t = self.type_of(a)
+                l, x = self.ex(a, t)
+                ls += l
+                if t in ("str", "String"):
+                    parts.append(f"({x})")
+                elif isinstance(t, str) and t in INT_TYPES and signed(t):
+                    parts.append(f"(Model.fmtInt ({x}))")
+                elif isinstance(t, str) and t in INT_TYPES:
+                    parts.append(f"(Model.fmtInt ((({x}) : Nat) : Int))")
+                elif t == "Decimal":
+                    raise Unsupported("format!: Display of a Decimal")
+                else:
+                    raise Unsupported(f"format!: Display of {t}")
+                continue
+            mm = re.fullmatch(r"\{:0(\w+)\$\}", ph)
+            if not mm or mm.group(1) not in named:
+                raise Unsupported(f"format placeholder {ph}")
+            t = self.type_of(a, "i128")
+            l, x = self.ex(a, t)
+            lw, xw = self.ex(named[mm.group(1)], "usize")
+            ls += l + lw
+            cast = x if signed(t) else f"((({x}) : Nat) : Int)"
+            parts.append(f"(Model.fmtZeroPadInt ({cast}) ({xw}))")
+        if i != len(pos):
+            raise Unsupported("format!: unused arguments")
+        return ls, "(" + " ++ ".join(parts or ["([] : List Nat)"]) + ")"
+
     def ex(self, e, hint=None):
         k = e[0]
         if k == "lit":
             return [], str(e[1])
+        if k == "strlit":
+            return [], self.bytes_lit(e[1])
+        if k == "macro" and e[1] == "format":
+            return self.format_macro(e[2])
+        if k == "macro" and e[1] == "write":
+            # `write!(form, …)`: the value is what is written to the formatter (the functions translated write exactly once)
+            toks = e[2]
+            if not (toks and toks[0][0] == "id" and toks[1][1] == ","):
+                raise Unsupported("write! target")
+            return self.format_macro(toks[2:])
         if k == "paren":
             ls, x = self.ex(e[1], hint)
             return ls, f"({x})"
@@ -948,9 +1053,10 @@ class Emit:
                 for pt in pats:
                     saved = dict(self.env)
                     self.bind_pat(pt, st)
-                    lb, xb = self.ex(body, hint)
+                    lb, xb = self.ex(body, hint) if body[0] != "block" or (not body[1] and body[2] is not None) else (["@"], None)
                     if lb:
-                        raise Unsupported("effect inside a value-position match arm")
+                        self.env = saved
+                        return self.match_value_effects(e, st, ls, x, hint)
                     arms.append(f"| {self.pat_lean(pt, st)} => {xb}")
                     self.env = saved
             return ls, "(match " + x + " with " + " ".join(arms) + ")"
@@ -994,6 +1100,42 @@ class Emit:
         if k == "block" and not e[1] and e[2] is not None:
             return self.ex(e[2], hint)
         raise Unsupported(f"expression {k}")
+
+    def match_value_effects(self, e, st, ls, x, hint):
+        """value-position `match` whose arms have effects or statements: a monadic sub-block per arm"""
+        if hint is None:
+            for _, body in e[2]:
+                try:
+                    hint = self.type_of(body[2] if body[0] == "block" else body)
+                    break
+                except Unsupported:
+                    continue
+        if hint is None:
+            raise Unsupported("type of a value-position match with effects")
+        ind = getattr(self, "cur_ind", 1) + 3
+        saved_ret, self.ret = self.ret, hint
+        saved_val, self.in_value = getattr(self, "in_value", False), True
+        saved_decl = getattr(self, "decl_ret", None)
+        self.decl_ret = hint
+        pad = "  " * (ind - 1)
+        out = ""
+        try:
+            for pats, body in e[2]:
+                for pt in pats:
+                    saved = dict(self.env)
+                    self.bind_pat(pt, st)
+                    b = body if body[0] == "block" else ("block", [], body)
+                    out += f"{pad}| {self.pat_lean(pt, st)} => (do\n" + self.block_term(b, ind + 1, None) + f"{pad}  )\n"
+                    self.env = saved
+        finally:
+            self.ret = saved_ret
+            self.in_value = saved_val
+            if saved_decl is None:
+                del self.decl_ret
+            else:
+                self.decl_ret = saved_decl
+        v = self.fresh()
+        return ls + [f"let {v} ← (match {x} with\n{out}{pad}: Outcome {lean_ty(hint)})"], v
 
     def binop(self, e, hint):
         _, op, a, b = e
@@ -1095,6 +1237,19 @@ class Emit:
                 raise Unsupported("effect inside a closure")
             return lr, f"(if {xr} = true then some ({xb}) else none)"
         t = self.type_of(recv, hint)
+        if m == "to_string" and not args and isinstance(t, str) and t in INT_TYPES and signed(t):
+            lr, xr = self.ex(recv, t)
+            return lr, f"(Model.fmtInt ({xr}))"
+        if t == "Formatter" and m == "precision" and not args:
+            lr, xr = self.ex(recv, t)
+            return lr, f"({xr}).prec"
+        if t == "Formatter" and m == "pad_integral" and len(args) == 3:
+            if args[1] != ("strlit", ""):
+                raise Unsupported("pad_integral with a prefix")
+            lr, xr = self.ex(recv, t)
+            la, xa = self.ex(args[0], "bool")
+            lb, xb = self.ex(args[2], "String")
+            return lr + la + lb, f"(Std.padIntegral ({xr}) ({xa}) ({xb}))"
         if t == "AsciiDecLit" and m in LIT_METHODS:
             return self.call(("call", [LIT_METHODS[m]], [recv] + list(args)), hint)
         if t in (("slice", "u8"), "str"):
@@ -1362,10 +1517,16 @@ class Emit:
             t = ty or (self.branch_type(e) if e[0] == "if" else None) or self.type_of(e)
             if t is None and e[0] == "match":
                 st = self.type_of(e[1])
-                saved = dict(self.env)
-                self.bind_pat(e[2][-1][0][0], st)
-                t = self.type_of(e[2][-1][1])
-                self.env = saved
+                for pats_, body_ in reversed(e[2]):
+                    saved = dict(self.env)
+                    try:
+                        self.bind_pat(pats_[0], st)
+                        t = self.type_of(body_[2] if body_[0] == "block" and body_[2] is not None else body_)
+                    except (Unsupported, KeyError, TypeError):
+                        t = None
+                    self.env = saved
+                    if t is not None:
+                        break
             ls, x = self.ex(e, t)
             self.bind_pat(p, t)
             out = "".join(f"{pad}{l}\n" for l in ls)
@@ -1423,6 +1584,11 @@ class Emit:
                         f"{pad}| Sum.inr {tup} =>\n" + rest_txt)
             out = f"{pad}let {tup} ← {call}\n"
             return out + self.stmts_term(rest, tail, ind, k)
+        if kind == "declare":
+            if s[1][0] != "pvar":
+                raise Unsupported("declaration pattern")
+            self.env[s[1][1]] = s[2]
+            return self.stmts_term(rest, tail, ind, k)
         if kind == "whilelet":
             return self.whilelet_stmt(s, rest, tail, ind, k)
         if kind == "assign":
@@ -1879,7 +2045,7 @@ class Emit:
 
 
 # ----------------------------------------------------------------------------- driver
-GROUP_IMPORTS = {"KParse": ["Fpdec.Gen.KSwar", "Fpdec.Gen.Consts", "Fpdec.Model.Parser"], "KMagn": ["Fpdec.Gen.KLog", "Fpdec.Gen.Consts", "Fpdec.Model.Decimal"], "KRatio": ["Fpdec.Gen.KPow", "Fpdec.Model.Decimal"], "KPow": ["Fpdec.Gen.Consts"], "KDivRounded": ["Fpdec.Gen.KRound", "Fpdec.Gen.KPow", "Fpdec.Model.Core"],
+GROUP_IMPORTS = {"KFormat": ["Fpdec.Gen.KDivRounded", "Fpdec.Gen.Consts", "Fpdec.Model.Format"], "KParse": ["Fpdec.Gen.KSwar", "Fpdec.Gen.Consts", "Fpdec.Model.Parser"], "KMagn": ["Fpdec.Gen.KLog", "Fpdec.Gen.Consts", "Fpdec.Model.Decimal"], "KRatio": ["Fpdec.Gen.KPow", "Fpdec.Model.Decimal"], "KPow": ["Fpdec.Gen.Consts"], "KDivRounded": ["Fpdec.Gen.KRound", "Fpdec.Gen.KPow", "Fpdec.Model.Core"],
                  "KDecDiv": ["Fpdec.Gen.KDivRounded"], "KDecMul": ["Fpdec.Gen.KDivRounded", "Fpdec.Model.Decimal"], "KNorm": [], "KFromStr": ["Fpdec.Gen.KPow", "Fpdec.Gen.Consts", "Fpdec.Model.Parser"], "KIntoFloat": ["Fpdec.Gen.Consts", "Fpdec.Model.Decimal"], "KIntOps": ["Fpdec.Gen.KDecDiv", "Fpdec.Gen.KNorm", "Fpdec.Gen.Consts", "Fpdec.Model.Decimal"], "KForward": ["Fpdec.Gen.KAddSub", "Fpdec.Gen.KDecOps"], "KIntConv": ["Fpdec.Gen.KPow", "Fpdec.Model.Decimal"], "KCmp": ["Fpdec.Gen.KPow", "Fpdec.Model.Decimal"], "KAddSub": ["Fpdec.Gen.KPow", "Fpdec.Model.Decimal"], "KDecUnops": ["Fpdec.Gen.KUnops", "Fpdec.Gen.KPow", "Fpdec.Model.Decimal"], "KDecOps": ["Fpdec.Gen.KDecDiv", "Fpdec.Gen.KDecMul", "Fpdec.Gen.KNorm", "Fpdec.Gen.Consts", "Fpdec.Model.Decimal"],
                  "KDecRound": ["Fpdec.Gen.KDivRounded", "Fpdec.Model.Decimal"],
                  "KFloat": ["Fpdec.Gen.KNorm", "Fpdec.Gen.Consts", "Fpdec.Model.Core", "Fpdec.Model.Decimal"], "KRem": ["Fpdec.Gen.KPow"], "KDecRem": ["Fpdec.Gen.KRem", "Fpdec.Model.Decimal"],
@@ -2026,6 +2192,9 @@ KERNELS = [
     ("KParse", "fpdec-core/src/parser.rs", "accum_coeff", "AsciiDecLit", {"as": "lit_accum_coeff"}),
     ("KParse", "fpdec-core/src/parser.rs", "accum_exp", "AsciiDecLit", {"as": "lit_accum_exp"}),
     ("KParse", "fpdec-core/src/parser.rs", "str_to_dec", None, {"err": "ParseDecimalError"}),
+    ("KFormat", "src/format.rs", "from", "String", {"as": "string_from_decimal"}),
+    ("KFormat", "src/format.rs", "fmt", "Decimal", {"as": "decimal_debug_fmt", "macro": ("impl_debug", 0, 0, None), "ret": "Written"}),
+    ("KFormat", "src/format.rs", "fmt", "Decimal", {"as": "decimal_display_fmt", "ret": "Written", "occ": 1}),
     ("KFromStr", "src/from_str.rs", "from_str", "Decimal", {"as": "decimal_from_str", "err": "ParseDecimalError",
                                                              "ret": ("Result", "Decimal", "ParseDecimalError")}),
     ("KFromStr", "fpdec-macros/src/lib.rs", "Dec", None, {"as": "dec_fold", "err": "ParseDecimalError", "rewrite": [
@@ -2198,6 +2367,8 @@ def translate(repo):
                          term.rstrip("\n"), ""]
             except Exception as e:                  # noqa: BLE001
                 failed[name] = f"{type(e).__name__}: {e}"
+                if os.environ.get("FPK_DEBUG"):
+                    import traceback; traceback.print_exc()
         if lines is None:
             # outside the translated subset: a stub of the wrong type, so that the tie theorem of this kernel fails to check
             why = failed[name].replace("-/", "- /")
